@@ -85,11 +85,19 @@ def run(ctx):
             call = {"framework": cn, "lists": {k: [realfuzz.show(v) for v in vs] for k, vs in lists.items()}, "quantities": qs, "label_kind": label_kind}
             try:
                 res = []
+                kept = []
                 for item in get_hmf(qs if r.random() < 0.7 else qs[0] if len(qs) == 1 else qs, framework=fw, fast_kwargs=FAST[cn], label_kind=label_kind, **copy.deepcopy(kw)):
                     quants, x, label = item[0], item[1], item[2]
                     pv = x.parameter_values
                     combo = tuple((k, next(i for i, v in enumerate(lists[k]) if realfuzz.canon(_norm(x, k, v)) == realfuzz.canon(pv[k]))) for k in lists if len(lists[k]) > 1)
                     res.append((combo, label, [realfuzz.canon(q) for q in quants], {k: (dict(v) if isinstance(v, dict) else v) for k, v in pv.items()}))
+                    kept.append(item)
+                # results collected by the caller (`big_list = list(get_hmf(...))`, as in the docstring) keep the quantities and label they were
+                # yielded with; only the framework instance is, by design, one and the same object
+                for j_, (it_, rec_) in enumerate(zip(kept, res)):
+                    if [realfuzz.canon(q) for q in it_[0]] != rec_[2] or it_[2] != rec_[1]:
+                        viol("collected-results-overwritten", f"{cn}: result {j_} of {len(kept)} collected from get_hmf no longer holds the quantities/label it was yielded with once the generator has advanced (label now {it_[2]!r}, yielded {rec_[1]!r})", call)
+                        break
             except Exception as e:
                 viol(f"raises/{cn}", f"get_hmf raised {type(e).__name__}: {str(e)[:100]}", call)
                 continue
